@@ -34,6 +34,7 @@ RULES = {
     "C08-H3": "executed bytes are removed with equal amounts; scanning restarts at the remainder",
     "C08-H4": "the scanner never examines bytes beyond the received data (cursor reads/advances guarded)",
     "C08-H5": "the buffer is NUL-terminated after the last change of the fill level before every parse",
+    "C08-H7": "the text attached to -113 is cut before every trailing terminator byte (CR and LF alike), so it does not depend on whether CR and LF arrived in the same call",
     "C08-H6": "a line is executed exactly when the scanner reports a NL termination",
 }
 
@@ -196,6 +197,87 @@ def rule_h2_h6(ck, prog, S):
     ck.analysed(f)
 
 
+def rule_h7(ck, prog, S):
+    from sa import charset as CS
+    parse, nl = prog.fn("SCPI_Parse"), prog.fn("scpiLex_NewLine")
+    if parse is None or nl is None:
+        ck.anchor_lost("C08-H7", "SCPI_Parse / scpiLex_NewLine")
+        return
+    term = {C.const_of(C.call_args(c)[1]) for c in nl.calls("skipChr")} - {None}
+    pushes = [c for c in parse.calls("SCPI_ErrorPushEx") if C.const_of(K.arg(c, 1)) == -113]
+    if not term or len(pushes) != 1:
+        ck.anchor_lost("C08-H7", "terminator bytes of scpiLex_NewLine (%s) / the -113 push with text (%d)" % (sorted(term), len(pushes)))
+        return
+    push = pushes[0]
+    ck.analysed(parse, nl)
+    st = K.site(parse, "undefined-header-text-trimmed", 0)
+    a = C.call_args(push)
+    txt, ln = a[2].strip_all_casts().get("path"), a[3].strip_all_casts().get("path")
+    key = "%s[%s-1]" % (txt, ln)
+    pg = S.pg(parse)
+
+    def transfer(state, e):
+        if e.kind == "elem":
+            n_ = e.node
+            t = C.store_target(n_)
+            if t is not None and t.get("path") in (ln, txt):
+                return frozenset()
+            if n_.k == "DeclStmt":
+                if any(d["name"] in (ln, txt) for d in n_.get("decls", [])):
+                    return frozenset()
+                for d in n_.get("decls", []):
+                    if "init" in d and parse.nodes[d["init"]].strip_all_casts().src.replace(" ", "") == key:
+                        state = state | frozenset({("alias", d["name"])})     # a local copy of the last byte
+                return state
+            if t is not None and t.k == "DeclRefExpr":
+                state = frozenset(x for x in state if x != ("alias", t.get("path")))
+                if n_.get("op") == "=" and n_.child(1).strip_all_casts().src.replace(" ", "") == key:
+                    state = state | frozenset({("alias", t.get("path"))})
+            return state
+        lab = e.label
+        if not lab or lab[0] not in ("true", "false") or lab[1] is None:
+            return state
+        add = set()
+        for atom, pol in C.cond_facts(lab[1], lab[0] == "true"):
+            if isinstance(pol, tuple):
+                continue
+            a_ = atom.strip_all_casts() if hasattr(atom, "strip_all_casts") else atom
+            if a_.k == "BinaryOperator" and a_.get("op") in (">", "!=") and a_.child(0).strip_all_casts().get("path") == ln \
+                    and C.const_of(a_.child(1)) == 0 and pol is False:
+                add |= set(range(256))                      # the text is empty
+            elif a_.get("path") == ln and pol is False:
+                add |= set(range(256))
+            elif key in a_.src.replace(" ", "") or any(("alias", x.get("path")) in state for x in a_.walk() if x.k == "DeclRefExpr"):
+                names = {x.get("path") for x in a_.walk() if x.k == "DeclRefExpr" and ("alias", x.get("path")) in state}
+                for b in range(256):
+                    try:
+                        env_ = {"$expr": {key: CS.byte_as_char(b)}}
+                        env_.update({nm: CS.byte_as_char(b) for nm in names})
+                        v = CS.ceval(a_, env_, prog)
+                    except CS.CannotEvaluate:
+                        break
+                    if bool(v) != bool(pol):
+                        add.add(b)                          # this edge cannot be taken when the last byte is b
+        return state | frozenset(add) if add else state
+    stt = pg.must(transfer)
+    best = stt.get(pg.before(push))
+    best = {x for x in best if not isinstance(x, tuple)} if best is not None else None
+    trims = [n for n, t in C.stores(parse) if t.get("path") == ln and (n.get("op") in ("--", "-="))]
+    if best is not None and best >= term:
+        extra = best - term
+        if extra:
+            ck.violated("C08-H7", st, K.loc(parse, push), "the -113 text is also cut before bytes %s that are not terminators" % sorted(extra)[:8])
+        else:
+            ck.holds("C08-H7", st, K.loc(parse, push), "at the push: %s == 0 or %s[%s-1] not in %s" % (ln, txt, ln, sorted(term)))
+    elif trims or ln is None:
+        ck.violated("C08-H7", st, K.loc(parse, push),
+                    "at the -113 push the last byte of the attached text can still be a terminator byte (guaranteed stripped: %s of %s): "
+                    "`NOPE\\r` + `\\n` in two calls queues a different text than `NOPE\\r\\n` in one call"
+                    % (sorted(best or []), sorted(term)))
+    else:
+        ck.undecided("C08-H7", st, K.loc(parse, push), "trimming of the -113 text not found in SCPI_Parse (length argument `%s`)" % a[3].src)
+
+
 def run(ck, fb, tier):
     for cfg in fb.configs:
         ck.config = cfg
@@ -208,6 +290,7 @@ def run(ck, fb, tier):
         c09_h3(ck, prog)
         c01.rule_l1_l2(ck, prog, S, model, "C08-H4", "C08-H4")
         h5(ck, prog, S)
+        rule_h7(ck, prog, S)
     ck.assume("the stream never leaves more unterminated data pending than the input buffer holds (the property's precondition)")
 
 
